@@ -2,7 +2,7 @@ from registry import reg, Check
 
 reg(Check(
     "C18", "c18",
-    coq_targets=["Client/ClientCheck.vo", "Client/ClientProofs.vo", "Client/ClientProofs2.vo", "Client/ClientProofs3.vo", "Client/ClientProofs4.vo", "Props/C18.vo"],
+    coq_targets=["Client/ClientCheck.vo", "Client/ClientProofs.vo", "Client/ClientProofs2.vo", "Client/ClientProofs3.vo", "Client/ClientProofs4.vo", "Client/ClientProofs5.vo", "Props/C18.vo"],
     assumptions=[
         "transport (Impl) hypothesis: the constructor and Impl.Subscribe fail on an already cancelled context; a Recv that blocks returns an error once its context is cancelled or the Impl is closed; every other transport call and every application callback returns",
         "one Subscribe call and at most one Close call per client; single registered client type",
@@ -10,5 +10,5 @@ reg(Check(
     ],
     modelled=["client/client.go: BaseClient.Subscribe, run, Close; client/reconnect.go: ReconnectClient.Subscribe, initDone, Close; client/cache.go: CacheClient.Subscribe/defaultHandler (transparent); client/fake/fake.go Recv (Connected, one notification per call, Sync + ErrStopReading at the end)"],
 ),
-    level_text="",
-    level_note="")
+    level_text="Theorems in coq/Props/C18.v are stated over a labelled transition system (subscriber, closer, canceller; scripted transport) that mirrors BaseClient.Subscribe/run/Close and ReconnectClient.Subscribe/initDone/Close step by step, for all transport scripts and all schedules: after Close has set p.closed every continuation is bounded by an explicit measure, passes at most one backoff sleep and cannot block before Subscribe and Close have both returned (bare client: after a Close that found the transport installed); exactly one of initDone/Close cancels the context; every trace of the model satisfies the executable specification K_P (one disconnect per ended attempt, reset before every retry, resubscription unless closed/cancelled; Connected first, order preserved, nothing lost, whole messages; at most one message after Close, none through a ReconnectClient). The model is tied to the code by an acceptance check evaluated inside Coq: the real clients are driven against a scripted transport whose decoding side is the real client/fake or client/gnmi code, Close/cancel are injected at every point the script offers, and the recorded event sequence must be a trace of the model for that script (soundness of the subset construction proved) and satisfy K_P.",
+    level_note="Trusted: Coq kernel + vm_compute, the hand-written LTS (validated only on the explored scenarios), the Go harness (scripted transport, event log, gates). Transport hypothesis as listed in assumptions; backoff durations abstract; one Subscribe and at most one Close per client. Real-time bound (return within the current backoff interval) is measured by the watchdog, not proved.")
